@@ -1,6 +1,6 @@
 SPECIFICATION Spec
 CONSTANTS
-  MaxArgv = 3
+  MaxArgv = 2
   EmitOn = FALSE
 INVARIANTS IgnoreErrorsOk RelationsHold SourcesHonest ActionsFold AttributionSound TailVerbatim ChainAndGlobals Rejections
 CHECK_DEADLOCK FALSE
